@@ -267,8 +267,9 @@ def main(tier="quick", seed=0):
                             encoding_cases=checked, encoding_disagreements=bad[:5]),
               assumptions=["CPython %s as reference" % sys.version.split()[0]], wall_s=round(time.time() - t0, 2),
               violations=0)
-    os.makedirs(os.path.join(ROOT, "evidence"), exist_ok=True)
-    json.dump(ev, open(os.path.join(ROOT, "evidence", "selftest.json"), "w"), indent=1)
+    evdir = os.environ.get("PYVC_EVIDENCE_DIR") or os.path.join(ROOT, "evidence")
+    os.makedirs(evdir, exist_ok=True)
+    json.dump(ev, open(os.path.join(evdir, "selftest.json"), "w"), indent=1)
     for d in dis[:8]:
         print("ENGINE-UNSOUND interpreter disagrees with CPython on:\n%s  differs in %s\n  native=%s\n  interp=%s" % (d["program"], d["differs_in"], d["native"], d["interp"]))
     for b in bad[:8]:
